@@ -10,8 +10,8 @@
 //	delete the byte | replace it by each byte of a replacement alphabet | CR->LF, LF->CR | swap CR LF
 //
 // are built, continued by a valid message (directly and behind an empty line), and fed in one
-// piece, at every single cut and byte-at-a-time (core bases / thorough: every double cut) to
-// the real processors and to the recording processor.
+// piece, at every single cut and byte-at-a-time (core bases: double cuts with one cut next to
+// the change; thorough: every double cut) to the real processors and to the recording processor.
 //
 // Whether a neighbour has to be rejected is decided by httpgen.StrictFraming, a strict
 // recogniser that shares no code with nbhttp: only when it finds a CR/LF framing error in
@@ -33,7 +33,7 @@ import (
 type fbase struct {
 	m      *httpgen.Msg
 	client bool
-	core   bool // the quick tier also enumerates every double cut for the deletions (as the old list did)
+	core   bool // the quick tier also enumerates double cuts around the change for the deletions
 	wide   bool // thorough-only base
 }
 
@@ -41,8 +41,8 @@ var (
 	tailReq = "GET /next HTTP/1.1\r\nHost: h\r\n\r\n"
 	tailRes = "HTTP/1.1 200 OK\r\nContent-Length: 0\r\n\r\n"
 	// replacement bytes for a framing CR / LF (the other byte of the pair is always tried too)
-	replQuick    = []byte{'X', ' ', '\t', 0, '0', ':'}
-	replThorough = []byte{'X', ' ', '\t', 0, '0', ':', ';', ',', 'a', '=', '"', 0x0b, 0x0c, 0x7f, 0x80, 0xff}
+	replQuick    = []byte{'X', ' ', '\t', '0', ':'}
+	replThorough = []byte{'X', ' ', '\t', 0, '0', ':', ';', ',', 'a', 0x7f, 0x80, 0xff}
 )
 
 func plain(n int) []byte { return bytes.Repeat([]byte("d"), n) }
@@ -163,6 +163,9 @@ func framingBases(thorough bool) []fbase {
 	}
 	for hi, hs := range hsets {
 		for _, b := range bodies {
+			if hi > 0 && b.wide {
+				continue // the widest bodies are combined with the first header set only
+			}
 			wide := b.wide || (hi > 0 && !narrow[b.name])
 			isCore := hi == 0 && core[b.name]
 			desc := b.name + " " + hs.name
@@ -376,8 +379,9 @@ func (e *evaluator) framingItem(fb fbase, eol httpgen.EOL, thorough bool) {
 	})
 }
 
-// framingDoubleItem: every double cut (real processor) of the neighbours of ONE framing CRLF
-// whose kind is in kinds, continued directly and behind an empty line.
+// framingDoubleItem: double cuts (real processor) of the neighbours of ONE framing CRLF whose
+// kind is in kinds, continued directly and behind an empty line: all C(n-1,2) in the thorough
+// tier, those with one cut within 3 bytes of the changed byte in the quick tier.
 func (e *evaluator) framingDoubleItem(fb fbase, eol httpgen.EOL, thorough bool, kinds map[string]bool) {
 	p := e.p
 	framingStreams(fb, eol, thorough, func(nb *httpgen.FramingNeighbour, ti int, kind, desc string, stream []byte, ref httpgen.Ref) {
@@ -386,12 +390,29 @@ func (e *evaluator) framingDoubleItem(fb fbase, eol httpgen.EOL, thorough bool, 
 		}
 		judged, rejected, cases := 0, 0, 0
 		c := &httpgen.Case{Stream: stream, Client: fb.client, Mode: httpgen.Real, ReadLimit: -1, Policy: track.Pooled, Lite: true, Probe: true}
-		httpgen.DoubleCutsAll(len(stream), func(cuts []int) {
+		run := func(cuts []int) {
 			c.Cuts = cuts
 			e.framingRun(c, "d2.double-cut", kind, desc, ref, &judged, &rejected)
 			cases++
-		})
-		p.Count("d2.streams_with_every_double_cut", 1)
+		}
+		if thorough {
+			httpgen.DoubleCutsAll(len(stream), run)
+			p.Count("d2.streams_with_every_double_cut", 1)
+		} else {
+			// quick: one cut within 3 bytes of the change, the other anywhere
+			n := len(stream)
+			near := func(x int) bool { return x >= nb.At-2 && x <= nb.At+3 }
+			cuts := make([]int, 2)
+			for a := 1; a < n; a++ {
+				for b := a + 1; b < n; b++ {
+					if near(a) || near(b) {
+						cuts[0], cuts[1] = a, b
+						run(cuts)
+					}
+				}
+			}
+			p.Count("d2.streams_with_double_cuts_around_change", 1)
+		}
 		p.Count("d2.cases_judged", judged)
 		p.Count("d2.cases_rejected", rejected)
 		p.Count("d2.cases_not_judged", cases-judged)
@@ -402,6 +423,5 @@ func (e *evaluator) framingDoubleItem(fb fbase, eol httpgen.EOL, thorough bool, 
 // tier, these for every base of the quick product in the thorough tier
 var (
 	doubleCutQuick    = []string{"missing-CR", "missing-LF"}
-	doubleCutThorough = []string{"missing-CR", "missing-LF", "CR-replaced-by-LF", "LF-replaced-by-CR", "CR-replaced-by-'X'", "LF-replaced-by-'X'",
-		"CR-replaced-by-SP", "LF-replaced-by-SP", "CRLF-swapped"}
+	doubleCutThorough = []string{"missing-CR", "missing-LF", "LF-replaced-by-'X'"}
 )
